@@ -290,7 +290,7 @@ class C03(CoreProp):
     pid = 'C03'; props_file = 'Props_C03'; focus = {'src', 'pill', 'errno', 'ps'}; loop_share = 0.4
     proj = Proj(rets=('srclen',), exact=('loop', 'dispatch', 'quit'), cb=cb_full, keep=('close',))
     rule = ('corpus + random programs with descriptor/timer/signal sources (one-shot and persistent), environment actions between dispatches '
-            'and inside blocking loops, quit/stop/pause around pending events, errno left by callbacks, one-shot subscriptions replaced while a message is in flight; non-trivial = distinct script delivering >= 1 non-pubsub event')
+            'and inside blocking loops, quit/stop/pause around pending events, errno left by every kind of callback (handlers and start/stop/eval hooks, e.g. the on_stop of a pilled module in the middle of a batch), one-shot subscriptions replaced while a message is in flight; non-trivial = distinct script delivering >= 1 non-pubsub event')
     def monitors(self, case, ctr): return mon_userdata(case, ctr) + mon_evt_only_running(case, ctr)
     def nontrivial(self, case, ctr):
         return ctr is not None and any(l.startswith('cb ') and re.search(r' [1-7]:', l) for l in ctr)
@@ -322,7 +322,7 @@ class C08(CoreProp):
         return ctr is not None and sum(len([x for x in l.split()[6:] if x.startswith('0:')]) for l in ctr if l.startswith('cb ')) >= 3
 
 class C09(CoreProp):
-    scenario = staticmethod(GC.gen_subs_case)
+    scenario = staticmethod(GC.gen_registry_or_subs_case)
     pid = 'C09'; props_file = 'Props_C09'; focus = {'src'}
     proj = Proj(exact=('srcreg', 'srcdereg', 'srclen', 'sub', 'unsub'))
     rule = ('corpus + random register/deregister/length sequences per source kind (descriptor, timer, signal, path, threshold, task refusal, '
